@@ -3,7 +3,7 @@
    new one (same names, fields a prefix, nested declarations an order-preserving sub-list).
    Definitions only. *)
 From Coq Require Import String List NArith Bool.
-From J5V.lib Require Import Outcome.
+From J5V.lib Require Import Outcome Corr.
 From J5V.model Require Import J5sAst Desc J5sWalk.
 Import ListNotations.
 Local Open Scope N_scope.
@@ -191,6 +191,55 @@ Definition file_ext (a c : dfile) : Prop :=
   sub_list service_ext (fl_svcs a) (fl_svcs c).
 
 Definition files_ext (D D' : list dfile) : Prop := sub_list file_ext D D'.
+
+(* ------------------------------------------------------------------ a checker for the embedding *)
+(* Sufficient boolean test for files_ext (sound: J5sExtBoolProofs; greedy left-to-right
+   matching, complete when sibling names are distinct); evaluated on the real before / after
+   descriptors of every generated pair. *)
+Section SubListB.
+Context {A : Type}.
+Variable R : A -> A -> bool.
+Fixpoint prefix_b (l l' : list A) {struct l} : bool :=
+  match l, l' with
+  | [], _ => true
+  | a :: r, c :: r' => R a c && prefix_b r r'
+  | _ :: _, [] => false
+  end.
+Fixpoint sub_list_b (l l' : list A) {struct l} : bool :=
+  match l with
+  | [] => true
+  | a :: r =>
+      (fix scan (q : list A) {struct q} : bool :=
+         match q with
+         | [] => false
+         | c :: q' => if R a c then sub_list_b r q' else scan q'
+         end) l'
+  end.
+End SubListB.
+
+Definition enum_ext_b (a c : denum) : bool :=
+  str_eqb (en_name a) (en_name c) &&
+  prefix_b (fun p q => str_eqb (fst p) (fst q) && (snd p =? snd q)) (en_vals a) (en_vals c).
+
+Fixpoint msg_ext_b (x y : dmsg) {struct x} : bool :=
+  match x, y with
+  | DMsg n k fs ms es, DMsg n' k' fs' ms' es' =>
+      str_eqb n n' && mkind_eqb k k' && prefix_b dfield_eqb fs fs' &&
+      sub_list_b msg_ext_b ms ms' && sub_list_b enum_ext_b es es'
+  end.
+
+Definition service_ext_b (a c : dservice) : bool :=
+  str_eqb (ds_name a) (ds_name c) &&
+  option_eqb (fun p q => str_eqb (fst p) (fst q) && role_eqb (snd p) (snd q)) (ds_topic a) (ds_topic c) &&
+  prefix_b dmethod_eqb (ds_methods a) (ds_methods c).
+
+Definition file_ext_b (a c : dfile) : bool :=
+  str_eqb (fl_path a) (fl_path c) && str_eqb (fl_pkg a) (fl_pkg c) &&
+  sub_list_b msg_ext_b (fl_msgs a) (fl_msgs c) &&
+  sub_list_b enum_ext_b (fl_enums a) (fl_enums c) &&
+  sub_list_b service_ext_b (fl_svcs a) (fl_svcs c).
+
+Definition files_ext_b (D D' : list dfile) : bool := sub_list_b file_ext_b D D'.
 
 (* ------------------------------------------------------------------ source files: extended by appends *)
 (* What any sequence of C13 edits does to a source file, as a relation: properties appended
